@@ -60,6 +60,14 @@ PLACEMENTS = {
     "top.forof-restart": "while(true){ for (var v of [1,2,3]) { n++; } }",
     "top.recursion": "function r(){ n++; return r() + 1; } r();",
     "top.mutual": "function p(){ n++; return q(); } function q(){ return p(); } p();",
+    # loops that call functions on every iteration (several periods of the step counter)
+    "calls.function": "function f() {} function main() { while (true) { f(); } } main();",
+    "calls.top": "function f() {} while (true) { f(); }",
+    "calls.args": "function f(a, b) { return a; } while (true) { n = f(n, 1) + 1; }",
+    "calls.method": "var o = { m: function() { return 1; } }; for (;;) { o.m(); }",
+    "calls.getter": "var o = { get x() { return 1; } }; while (true) { n += o.x; }",
+    "calls.nested": "function f() { return g(); } function g() { return 1; } do { f(); } while (true);",
+    "calls.new": "function F() { this.a = 1; } while (true) { new F(); }",
     # function kinds
     "function": "function f(){ %s } f();" % SPIN,
     "function-expr": "var f = function(){ %s }; f();" % SPIN,
@@ -156,6 +164,12 @@ def make_placement(name, wrap, num=int, k=K):
 
         def check_mon(self):
             counts.checks += 1
+            # the step counter that schedules the polls advances only here, once per interpreter step
+            seen = getattr(self, "_vf_checks", 0)
+            if self.instruction_count != seen:
+                raise AssertionError("the step counter moved outside _check_limits (%r after %r checks): poll points "
+                                     "can be skipped" % (self.instruction_count, seen))
+            self._vf_checks = seen + 1
             return orig_check(self)
         vmmod.VM._execute_opcode, vmmod.VM._check_limits = exec_mon, check_mon
         outcome = None
